@@ -527,3 +527,237 @@ def merge_post(C):
 def merge_edge_contract(prop):
     return Contract('local_mesh_refiner::merge_edge', prop, pre=merge_pre, post=merge_post, use=merge_callees(prop), safety={'bounds', 'dangling-ref', 'null-deref'},
                     name='local_mesh_refiner::merge_edge(physics)')
+
+
+# ---- cell::rebase: compaction and regeneration of the edge set -----------------------------------------------------------------------------------------
+def clocked(tag, ret=None):
+    def rm(C, st):
+        clk = st.ghost.get('clock', z3.IntVal(0)) + 1
+        st.ghost['clock'] = clk
+        st.ghost['at:' + tag] = clk
+        if ret is not None: return ret(C, st)
+        return None
+    return rm
+
+
+REBASE_STAGES = ['remove_faces', 'remove_nodes', 'update_node_ids', 'generate_edge_set', 'clear_edge_set']
+
+
+def rebase_setup(eng, st, args, this):
+    st.ghost['clock'] = z3.IntVal(0)
+    for t in REBASE_STAGES: st.ghost['at:' + t] = z3.IntVal(0)
+
+
+def rebase_callees(prop):
+    def hv(C):
+        # the compaction helpers and the rebuild of the edge set do not touch the two free-slot queues (remove_index only reads its index list)
+        v = C.old
+        qs = [fnq(v, C.caller_this), ffq(v, C.caller_this)]
+        return [('*', [], [('vec.len', qs), ('vec.data.int', qs)])]
+    return [Contract('remove_index', prop, signature='std::vector<face> &', assumed=True, frame=hv, ret_model=clocked('remove_faces'), name='remove_index<face, unsigned> (compacts the face list)'),
+            Contract('remove_index', prop, signature='std::vector<node> &', assumed=True, frame=hv, ret_model=clocked('remove_nodes'), name='remove_index<node, unsigned> (compacts the node list)'),
+            Contract('face::update_node_ids', prop, assumed=True, frame=hv, ret_model=clocked('update_node_ids'), name='face::update_node_ids (renumbers the nodes of a face)'),
+            Contract('cell::generate_edge_set', prop, assumed=True, frame=hv, throws=['mesh_integrity_exception'], ret_model=clocked('generate_edge_set'), name='cell::generate_edge_set (rebuilds the edge set from the faces)')]
+
+
+def rebase_post(C):
+    if C.outcome != 'ret':
+        return [('only-the-integrity-exception-escapes', z3.BoolVal(C.outcome == 'throw:mesh_integrity_exception'))]
+    o, n = C.old, C.new
+    g = C.post_state.ghost
+    c = C.this
+    nf0 = o.len(ffq(o, c)); nn0 = o.len(fnq(o, c))
+    at = lambda t: g['at:' + t]
+    renumbered = z3.Or(nf0 > 0, nn0 > 0)
+    return [('cover:only-node-slots-were-free', z3.And(nf0 == 0, nn0 > 0)), ('cover:only-face-slots-were-free', z3.And(nf0 > 0, nn0 == 0)), ('cover:nothing-to-compact', z3.And(nf0 == 0, nn0 == 0)),
+            ('free-slot-queues-are-empty-afterwards', z3.And(n.len(ffq(o, c)) == 0, n.len(fnq(o, c)) == 0)),
+            ('faces-are-compacted-iff-face-slots-were-free', (at('remove_faces') >= 1) == (nf0 > 0)),
+            ('nodes-are-compacted-iff-node-slots-were-free', (at('remove_nodes') >= 1) == (nn0 > 0)),
+            # ids of nodes and faces are part of every stored edge: any renumbering must be followed by a rebuild of the edge set
+            ('edge-set-is-rebuilt-after-every-renumbering', z3.Implies(renumbered, z3.And(at('generate_edge_set') > at('remove_faces'), at('generate_edge_set') > at('remove_nodes'),
+                                                                                        at('generate_edge_set') > at('update_node_ids'), at('generate_edge_set') >= 1))),
+            ('nothing-is-rebuilt-when-nothing-was-free', z3.Implies(z3.Not(renumbered), at('generate_edge_set') == 0))]
+
+
+def rebase_loops(reg):
+    reg.add_loop(LoopContract('cell::rebase', 0, lambda L: [], modifies=['face.local_face_id_']))
+    # the node renumbering loop writes the node ids and fills the local old-id -> new-id map
+    reg.add_loop(LoopContract('cell::rebase', 1, lambda L: [], modifies=['node.node_id_', 'sset.member', 'set.size', 'vec.data.int']))
+    queues = lambda L: [fnq(L.entry, L.this), ffq(L.entry, L.this)]
+    reg.add_loop(LoopContract('cell::rebase', 'for_each#0', lambda L: [], modifies=['*'], keep_at=[('vec.len', queues)]))
+
+
+def rebase_contract(prop):
+    return Contract('cell::rebase', prop, post=rebase_post, use=rebase_callees(prop), setup=rebase_setup, name='cell::rebase(order of compaction and edge-set rebuild)')
+
+
+# ---- cell::generate_edge_set: one face ---------------------------------------------------------------------------------------------------------------------
+def ges_body_pre(C):
+    o = C.old
+    c = C.this
+    return [('stored-edges-match-their-keys', edges_wf(o, c))]
+
+
+def ges_body_post(C):
+    if C.outcome not in (None, 'ret', 'continue', 'end'):
+        return [('a-face-is-refused-only-with-the-integrity-exception', z3.BoolVal(C.outcome == 'throw:mesh_integrity_exception'))]
+    o, n = C.old, C.new
+    c = C.this
+    f = None
+    for k, v in C.pre_state.env.items():
+        if C.e.var_names.get(k) == 'f' and not str(k).startswith(('tmp!', 'glob!', 'param', 'rangeidx!')): f = v
+    fr = f.ref
+    s = eset(o, c)
+    keys, nid = face_keys(o, C.e, fr)
+    fid = o.f(fr, 'face.local_face_id_')
+    out = []
+    for j, k in enumerate(keys):
+        out.append(('edge-%d-of-the-face-is-in-the-set-and-lists-the-face' % (j + 1), z3.And(member(n, s, k), has_face(n, s, k, fid))))
+    out.append(('stored-edges-still-match-their-keys', edges_wf_after(C, o, n, c)))
+    return out
+
+
+def generate_edge_set_body_contract(prop):
+    return Contract('cell::generate_edge_set', prop, pre=ges_body_pre, post=ges_body_post, slice_loop=0, safety={'bounds', 'optional'},
+                    name='cell::generate_edge_set::<one face>')
+
+
+# ------------------------------------------------------------------------------------------------ native replay shared by C01 / C10 / C11
+DRIVER = r'''
+#include <cstdio>
+#include <cstdlib>
+#include <cmath>
+#include <map>
+#include <array>
+#include "local_mesh_refiner.hpp"
+#include "epithelial_cell.hpp"
+// One refinement pass (real local_mesh_refiner::refine_mesh) on an icosphere whose edges are all longer than l_max, so that every
+// edge is split; the node list has no spare capacity, so cell::add_node reallocates it. Built with ASan/UBSan: any use of a
+// reference into the old storage is reported. Afterwards momentum conservation and 'no surviving node moved' are checked.
+static void icosphere(double r, int sub, std::vector<double>& pos, std::vector<unsigned>& faces){
+  const double t = (1. + std::sqrt(5.)) / 2.;
+  std::vector<std::array<double,3>> v{{-1,t,0},{1,t,0},{-1,-t,0},{1,-t,0},{0,-1,t},{0,1,t},{0,-1,-t},{0,1,-t},{t,0,-1},{t,0,1},{-t,0,-1},{-t,0,1}};
+  std::vector<std::array<unsigned,3>> f{{0,11,5},{0,5,1},{0,1,7},{0,7,10},{0,10,11},{1,5,9},{5,11,4},{11,10,2},{10,7,6},{7,1,8},{3,9,4},{3,4,2},{3,2,6},{3,6,8},{3,8,9},{4,9,5},{2,4,11},{6,2,10},{8,6,7},{9,8,1}};
+  auto nrm = [](std::array<double,3>& p){ double n = std::sqrt(p[0]*p[0]+p[1]*p[1]+p[2]*p[2]); p[0]/=n; p[1]/=n; p[2]/=n; };
+  for(auto& p: v) nrm(p);
+  for(int s = 0; s < sub; s++){
+    std::map<std::pair<unsigned,unsigned>, unsigned> cache;
+    auto mid = [&](unsigned a, unsigned b){ auto k = std::make_pair(std::min(a,b), std::max(a,b)); auto it = cache.find(k); if(it != cache.end()) return it->second;
+      std::array<double,3> m{(v[a][0]+v[b][0])/2, (v[a][1]+v[b][1])/2, (v[a][2]+v[b][2])/2}; nrm(m); v.push_back(m); return cache[k] = (unsigned)v.size()-1; };
+    std::vector<std::array<unsigned,3>> f2;
+    for(auto& tr: f){ unsigned a = mid(tr[0],tr[1]), b = mid(tr[1],tr[2]), c = mid(tr[2],tr[0]); f2.push_back({tr[0],a,c}); f2.push_back({tr[1],b,a}); f2.push_back({tr[2],c,b}); f2.push_back({a,b,c}); }
+    f = f2;
+  }
+  for(auto& p: v){ pos.push_back(r*p[0]); pos.push_back(r*p[1]); pos.push_back(r*p[2]); }
+  for(auto& tr: f){ faces.push_back(tr[0]); faces.push_back(tr[1]); faces.push_back(tr[2]); }
+}
+static int inconsistent_edges(const cell_ptr& c){
+  // every edge must be traversed in opposite directions by its two triangles
+  std::map<std::pair<unsigned,unsigned>, int> dir; int bad = 0;
+  for(const face& f: c->get_face_lst()){ if(!f.is_used()) continue; auto [a,b,d] = f.get_node_ids(); unsigned v[3] = {a,b,d};
+    for(int i = 0; i < 3; i++){ unsigned x = v[i], y = v[(i+1)%3]; auto k = std::make_pair(std::min(x,y), std::max(x,y)); dir[k] += (x < y) ? 1 : -1; } }
+  for(auto& kv: dir) if(kv.second != 0) bad++;
+  return bad;
+}
+static double signed_volume(const cell_ptr& c){
+  double s = 0; for(const face& f: c->get_face_lst()){ if(!f.is_used()) continue; auto [a,b,d] = f.get_node_ids();
+    const vec3& p = c->get_node_lst()[a].pos(); const vec3& q = c->get_node_lst()[b].pos(); const vec3& r = c->get_node_lst()[d].pos(); s += p.dot(q.cross(r)); }
+  return s / 6.;
+}
+static int stale_edges(const cell_ptr& c){
+  // the stored edge set must agree with the triangle list: every side of every used triangle is a stored edge that lists the triangle
+  int bad = 0;
+  for(const face& f: c->get_face_lst()){ if(!f.is_used()) continue; auto [a,b,d] = f.get_node_ids(); unsigned v[3] = {a,b,d};
+    for(int i = 0; i < 3; i++){ auto e = c->get_edge(v[i], v[(i+1)%3]); if(!e.has_value() || !e.value().has_face(f.get_local_id())) bad++; } }
+  return bad;
+}
+static vec3 total_momentum(const cell_ptr& c){ vec3 m(0,0,0); for(const node& nd: c->node_lst_) if(nd.is_used()) m = m + nd.momentum_; return m; }
+int main(int argc, char** argv){
+  const std::string mode = argc > 1 ? argv[1] : "split";
+  face_type_parameters ft; ft.name_ = "apical"; ft.face_type_global_id_ = 0;
+  auto ct = std::make_shared<cell_type_parameters>(); ct->name_ = "epithelial"; ct->global_type_id_ = 0; ct->add_face_type(ft);
+  std::vector<double> pos; std::vector<unsigned> faces; icosphere(1.0, mode == "dimple" ? 2 : 1, pos, faces);
+  if(mode == "dimple"){ for(size_t k = 0; k < pos.size() / 3; k++) if(pos[3*k+2] > 0.3) pos[3*k+2] = 0.6 - pos[3*k+2]; }     // cap reflected into the ball: a deep invagination
+  auto c = std::make_shared<epithelial_cell>(pos, faces, 0, ct); c->initialize_cell_properties(true);
+  c->node_lst_.shrink_to_fit(); c->face_lst_.shrink_to_fit();
+  const size_t n0 = c->node_lst_.size();
+  for(size_t k = 0; k < n0; k++) c->node_lst_[k].momentum_ = vec3(0.1*k + 0.3, -0.2*k, 0.05*k*k);
+  int bad = 0;
+  auto pass = [&](local_mesh_refiner& lmr, const char* what){
+    std::vector<vec3> p0; std::vector<bool> used0; for(const node& nd: c->node_lst_){ p0.push_back(nd.pos_); used0.push_back(nd.is_used()); }
+    const vec3 mom0 = total_momentum(c); const double vol0 = signed_volume(c);
+    const size_t free0 = c->free_node_queue_.size();
+    lmr.refine_mesh(c);
+    const vec3 mom1 = total_momentum(c);
+    if((mom1 - mom0).norm() > 1e-9 * (1 + mom0.norm())){ printf("FAIL %s: total momentum changed from (%g,%g,%g) to (%g,%g,%g)\n", what, mom0.dx(),mom0.dy(),mom0.dz(), mom1.dx(),mom1.dy(),mom1.dz()); bad = 1; }
+    if(free0 == 0 && mode != "reuse" && mode != "rebase") for(size_t k = 0; k < p0.size(); k++) if(used0[k] && c->node_lst_[k].is_used() && (c->node_lst_[k].pos_ - p0[k]).norm() != 0){ printf("FAIL %s: surviving node %zu moved\n", what, k); bad = 1; break; }
+    if(!c->is_manifold()){ printf("FAIL %s: surface is no longer a closed manifold\n", what); bad = 1; }
+    int inc = inconsistent_edges(c); if(inc){ printf("FAIL %s: %d edges are traversed in the same direction by both of their triangles (inconsistent winding)\n", what, inc); bad = 1; }
+    if(signed_volume(c) <= 0){ printf("FAIL %s: enclosed volume is not positive any more (%g -> %g)\n", what, vol0, signed_volume(c)); bad = 1; }
+    return vol0;
+  };
+  try{
+    if(mode == "split"){ local_mesh_refiner lmr(0.1, 0.4, false); pass(lmr, "split pass"); }
+    else if(mode == "dimple"){ local_mesh_refiner lmr(1e-4, 0.2, false); double v0 = pass(lmr, "split pass on a cell with an invagination");
+      if(std::fabs(signed_volume(c) - v0) > 1e-9 * std::fabs(v0)){ printf("FAIL splits changed the enclosed volume %g -> %g\n", v0, signed_volume(c)); bad = 1; } }
+    else if(mode == "rebase"){
+      // a collapse (frees two face and two node slots after adding one node) followed by one split (takes the free face slots and one node
+      // slot): face queue empty, node queue not. The compaction must leave an edge set that agrees with the renumbered triangles.
+      local_mesh_refiner lmr(0.3, 0.9, false); edge_set tmp;
+      c->update_centroid();
+      bool merged = false;
+      for(const edge& cand: c->get_edge_set()){ edge e1 = cand; if(lmr.can_be_merged(e1, c)){ lmr.merge_edge(e1, c, tmp); merged = true; break; } }
+      if(!merged){ printf("INCONCLUSIVE no edge could be collapsed\n"); return 0; }
+      { edge e2 = *c->get_edge_set().begin(); lmr.split_edge(e2, c, tmp); }
+      printf("free face slots %zu, free node slots %zu before the compaction\n", c->free_face_queue_.size(), c->free_node_queue_.size());
+      c->rebase();
+      int st = stale_edges(c); if(st){ printf("FAIL after the compaction %d triangle sides are missing from the edge set or do not list their triangle\n", st); bad = 1; }
+      if(!c->is_manifold()){ printf("FAIL after the compaction the stored edge set no longer describes a closed manifold\n"); bad = 1; }
+    }
+    else { // reuse: a collapse frees node slots, the splits of the next pass recycle them
+      { const unsigned u = faces[0], w = faces[1];       // two nodes joined by an edge
+        c->node_lst_[w].pos_ = c->node_lst_[u].pos_ + (c->node_lst_[w].pos_ - c->node_lst_[u].pos_) * 0.2; }
+      local_mesh_refiner lmr(0.3, 0.9, false); pass(lmr, "pass with a collapse");
+      size_t far = faces[faces.size() - 1]; c->node_lst_[far].pos_ = c->node_lst_[far].pos_ * 2.2;
+      pass(lmr, "pass with splits that recycle freed slots");
+    }
+  }catch(const std::exception& e){ printf("OK refused: %s\n", e.what()); return bad; }
+  if(!bad) printf("OK %s: %zu -> %zu nodes\n", mode.c_str(), n0, c->node_lst_.size());
+  return bad;
+}
+'''
+
+MODES = ['split', 'reuse', 'dimple', 'rebase']
+_CACHE = {}
+
+
+def run_modes():
+    import native
+    if 'r' not in _CACHE:
+        res = []
+        for m in MODES:
+            code, out = native.run_driver(DRIVER, [m], sanitize=True, timeout=900)
+            res.append((m, code, out))
+            if code not in (0, 124, 125): break
+        _CACHE['r'] = res
+    return _CACHE['r']
+
+
+def replay(ob, ins, run):
+    """real local_mesh_refiner / cell operations under ASan/UBSan: (split) an icosphere whose edges are all too long, node list without
+    spare capacity; (reuse) a collapse followed by splits that recycle the freed slots; (dimple) a cell with a deep invagination;
+    (rebase) one collapse, one split, then the compaction. Checked: total momentum, immobility of surviving nodes, closed manifold,
+    consistent winding, positive / unchanged volume, stored edge set against the triangle list"""
+    res = run_modes()
+    bad = [(m, c, o) for (m, c, o) in res if c not in (0, 124, 125)]
+    if bad:
+        m, c, o = bad[0]
+        return {'confirmed': True, 'exit': c, 'args': [m], 'output': o[-3000:], 'driver': 'specs/meshops.py:DRIVER mode %s (ASan/UBSan build of the current tree)' % m}
+    return {'confirmed': False, 'tried': [(m, c) for (m, c, o) in res], 'output': res[-1][2][-500:] if res else '', 'driver': 'specs/meshops.py:DRIVER'}
+
+
+def replay_recorded(data):
+    import native
+    args = data.get('native', {}).get('args') or ['split']
+    code, out = native.run_driver(DRIVER, args, sanitize=True, timeout=900)
+    return {'confirmed': code not in (0, 124, 125), 'output': out}
